@@ -135,6 +135,17 @@ func (w *World) NewSidOwner(name string) *Owner {
 
 // ---- sao module
 
+// NoAlias as StoreReq.Alias requests an unnamed model (empty alias field).
+const NoAlias = "-"
+
+// AliasOf turns a stored alias into the StoreReq form (an empty stored alias stays empty).
+func AliasOf(a string) string {
+	if a == "" {
+		return NoAlias
+	}
+	return a
+}
+
 // StoreReq describes a store request; zero fields take defaults.
 type StoreReq struct {
 	Owner     actors.Identity // proposal owner field
@@ -176,6 +187,8 @@ func (w *World) BuildStore(r StoreReq) (*saotypes.MsgStore, *actors.Account) {
 	}
 	if r.Alias == "" {
 		r.Alias = "alias-" + r.DataId
+	} else if r.Alias == NoAlias {
+		r.Alias = ""
 	}
 	p := saotypes.Proposal{
 		Owner: r.Owner.DID(), Provider: r.Gateway.Acct.Addr.String(), GroupId: "grp", Duration: r.Duration,
